@@ -108,6 +108,17 @@ pub fn module_error_str(e: &ModuleError) -> String {
   )
 }
 
+pub fn attr_id(a: Option<&str>) -> u64 {
+  match a {
+    None => 0,
+    Some("json") => 1,
+    Some("text") => 2,
+    Some("bytes") => 3,
+    Some("css") => 4,
+    Some(_) => 5,
+  }
+}
+
 pub fn error_kind_id(e: &ModuleError) -> u64 {
   match e.as_kind() {
     ModuleErrorKind::Load { .. } => 0,
@@ -260,6 +271,7 @@ pub fn abs_deps(deps: &IndexMap<String, Dependency>, it: &mut Intern) -> Sx {
           abs_res(&d.maybe_type, it),
           Sx::b(d.is_dynamic),
           Sx::b(d.maybe_deno_types_specifier.is_some()),
+          Sx::A(attr_id(d.maybe_attribute_type.as_deref())),
         ])
       })
       .collect(),
